@@ -89,10 +89,9 @@ func (r *zstdByteStreamChunkReader) Read() ([]byte, error) {
 	buf := make([]byte, r.readChunkSize)
 	n, err := r.decoder.Read(buf)
 	if n > 0 {
-		if err != nil && err != io.EOF {
-			err = nil
-		}
-		return buf[:n], err
+		// Return the data first. The decoder reports the error
+		// (or io.EOF) again during the next call.
+		return buf[:n], nil
 	}
 	return nil, err
 }
